@@ -101,7 +101,7 @@ class Gen:
         if depth >= self.max_depth:
             return self.leaf_spec(t)
         c = rng.choice(['dict', 'dict', 'chain', 'chain', 'coalesce', 'coalesce', 'or', 'switch', 'switch', 'list',
-                        'leaf', 'and'])
+                        'leaf', 'and', 'check'])
         d = depth + 1
         if c == 'leaf':
             return self.leaf_spec(t)
@@ -137,6 +137,9 @@ class Gen:
             subs = [self.missing() if rng.random() < 0.4 else self.spec(t, d)[0] for _ in range(rng.randint(1, 3))]
             o = {'default': 'odef'} if rng.random() < 0.2 else {}
             return ['Or', subs, o], None
+        if c == 'check':
+            # fails by itself (CheckError) after its sub-spec — often a recovered branch — succeeded
+            return ['Check', self.spec(t, d)[0], {'equal_to': 'never-equal'}], None
         if c == 'and':
             return ['And', [self.spec(t, d)[0] for _ in range(rng.randint(1, 2))], {}], None
         cases = []
@@ -294,7 +297,8 @@ def run_seed(seed, tier):
     stats['points'] = len(points)
     plans = [{}]
     for site, nth in points[:30]:
-        plans.append({f'0:{site}#{nth}': {'cls': rng.choice(['UGlomErr', 'UGlomErr', 'UGlomErrInit', 'UGlomMixed'])}})
+        plans.append({f'0:{site}#{nth}': {'cls': rng.choice(['UGlomErr', 'UGlomErr', 'UGlomErrInit', 'UGlomMixed',
+                                                             'UGlomMultiline'])}})
         plans.append({f'0:{site}#{nth}': {'cls': rng.choice(['ValueError', 'KeyError', 'UserErr', 'UGlomArity',
                                                              'UGlomKwOnly', 'UserArity'])}})
     for _ in range(6 if len(points) >= 2 else 0):
